@@ -2,6 +2,7 @@
 Support code for the failing-input search and the exact differential evaluation; the proofs are in Lean."""
 from fractions import Fraction
 
+import emit
 from emit import Q2
 from m3 import M3, SQ2, q
 
@@ -80,3 +81,374 @@ def fns(name, args):
         k = {"log1p": 3, "log": 5, "exp": 7}[name]
         return (v * v * Q2(Fraction(1, k)) + v * Q2(Fraction(k, 7)) + Q2(Fraction(1, k + 1)))
     raise KeyError(name)
+
+
+# ---------------------------------------------------------------------------------- C24 unit references
+import t1
+
+
+def rq(rng, nonzero=False):
+    return q(t1.rnd_rat(rng, nonzero))
+
+
+def mat_in(prefix, A, n=3):
+    return {"%s%d%d" % (prefix, i, j): A.a[i][j] for i in range(n) for j in range(n)}
+
+
+def tens_of(vals, N):
+    """tensor<N> storage -> 3x3 matrix (t00,t11,t22,t01,t10,t02,t20,t12,t21)"""
+    v = list(vals) + [Q2(0)] * 9
+    if N == 1:
+        return M3.diag(v[0], v[1], v[2])
+    if N == 2:
+        return M3([[v[0], v[3], 0], [v[4], v[1], 0], [0, 0, v[2]]])
+    return M3([[v[0], v[3], v[5]], [v[4], v[1], v[7]], [v[6], v[8], v[2]]])
+
+
+def distinct_vp(rng, pattern=""):
+    base = rng.sample([Fraction(1, 2), Fraction(2, 3), Fraction(3, 2), Fraction(2), Fraction(3), Fraction(5, 2), Fraction(1, 3), Fraction(4, 3)], 3)
+    a, b, c_ = [Q2(x) for x in base]
+    return {"": [a, b, c_], "_eq01": [a, a, c_], "_eq02": [a, b, a], "_eq12": [a, b, b], "_eqall": [a, a, a]}[pattern]
+
+
+def theta_conf(l, e, d):
+    """first divided differences, confluent when two eigenvalues coincide"""
+    return M3([[d[i] if (i == j or l[i] == l[j]) else (e[i] - e[j]) / (l[i] - l[j]) for j in range(3)] for i in range(3)])
+
+
+def g2_conf(l, e, d, s, i, k, j):
+    """second divided difference f[l_i,l_k,l_j], confluent (equal eigenvalues = repeated arguments)"""
+    idx = sorted([i, k, j], key=lambda a: (float(l[a]), a))
+    a, b, c_ = idx
+    # group equal values
+    if l[a] == l[b] and l[b] == l[c_]:
+        return s[a] * HALF
+    if l[a] == l[b]:
+        # f[x,x,y] = (f'(x) - f[x,y])/(x-y)
+        return (d[a] - (e[a] - e[c_]) / (l[a] - l[c_])) / (l[a] - l[c_])
+    if l[b] == l[c_]:
+        return (d[b] - (e[b] - e[a]) / (l[b] - l[a])) / (l[b] - l[a])
+    return ((e[a] - e[b]) / (l[a] - l[b]) - (e[b] - e[c_]) / (l[b] - l[c_])) / (l[a] - l[c_])
+
+
+def D2_conf(l, e, d, s, t, x, y):
+    r = Q2(0)
+    for i in range(3):
+        for k in range(3):
+            for j in range(3):
+                co = t.a[i][j] * (x.a[i][k] * y.a[k][j] + y.a[i][k] * x.a[k][j])
+                if co == Q2(0):
+                    continue
+                r = r + co * g2_conf(l, e, d, s, i, k, j)
+    return r
+
+
+class Case:
+    """random exact inputs of a handler unit of dimension N"""
+
+    def __init__(s, rng, N, pattern="", orth=False):
+        s.N = N
+        s.S = {1: 3, 2: 4, 3: 6}[N]
+        s.T = {1: 3, 2: 5, 3: 9}[N]
+        s.env = {}
+        s.l = distinct_vp(rng, pattern)
+        m = [[rq(rng) for _ in range(3)] for _ in range(3)]
+        if orth or pattern:
+            # coalescing-eigenvalue branches use M Mᵀ = 1: exact rational rotation (quaternion / Cayley form)
+            while True:
+                qa, qb, qc, qd = [Fraction(rng.randint(-3, 3)) for _ in range(4)]
+                if N == 2:
+                    qb = qc = Fraction(0)
+                n2 = qa * qa + qb * qb + qc * qc + qd * qd
+                if n2 != 0:
+                    break
+            R = [[qa * qa + qb * qb - qc * qc - qd * qd, 2 * (qb * qc - qa * qd), 2 * (qb * qd + qa * qc)],
+                 [2 * (qb * qc + qa * qd), qa * qa - qb * qb + qc * qc - qd * qd, 2 * (qc * qd - qa * qb)],
+                 [2 * (qb * qd - qa * qc), 2 * (qc * qd + qa * qb), qa * qa - qb * qb - qc * qc + qd * qd]]
+            m = [[Q2(x / n2) for x in r] for r in R]
+        if N == 2:
+            m[0][2] = m[1][2] = m[2][0] = m[2][1] = Q2(0)
+            m[2][2] = Q2(1)
+        s.M = M3(m)
+        Fv = [rq(rng, True) for _ in range(3)] + [rq(rng) for _ in range(6)]
+        s.Fv = Fv[:s.T]
+        s.F = tens_of(s.Fv, N)
+        for i in range(s.T):
+            s.env["F%d" % i] = s.Fv[i]
+        for i in range(3):
+            s.env["vp%d" % i] = s.l[i]
+        n = 3 if N == 3 else 2
+        for i in range(n):
+            for j in range(n):
+                s.env["m%d%d" % (i, j)] = m[i][j]
+
+    def sym_inputs(s, rng, prefix):
+        vals = [rq(rng) for _ in range(6)]
+        if s.N < 3:
+            vals[4] = vals[5] = Q2(0)
+        if s.N < 2:
+            vals[3] = Q2(0)
+        A = M3.sym(*vals)
+        for i, v in enumerate(mandel_vec(A, s.S)):
+            s.env["%s%d" % (prefix, i)] = v
+        return A
+
+    def mat_inputs(s, rng, prefix):
+        A = [[rq(rng) for _ in range(s.S)] for _ in range(s.S)]
+        for i in range(s.S):
+            for j in range(s.S):
+                s.env["%s%d_%d" % (prefix, i, j)] = A[i][j]
+        return A
+
+    def handler_members(s, rng, pattern=""):
+        """e (consistent with coalescing eigenvalues) and p as free symbols"""
+        e = [rq(rng) for _ in range(3)]
+        for i in range(3):
+            for j in range(i):
+                if s.l[i] == s.l[j]:
+                    e[i] = e[j]
+        s.e = e
+        for i in range(3):
+            s.env["e%d" % i] = e[i]
+        s.p = s.mat_inputs(rng, "p")
+
+    def spectral(s):
+        d = [Q2(1) / (Q2(2) * x) for x in s.l]
+        sd = [Q2(-1) / (Q2(2) * x * x) for x in s.l]
+        return d, sd
+
+
+def st2_of_map(L, S):
+    """Mandel matrix (row major list) of a linear map on symmetric matrices: entry (i,j) = mc_i(L(E_j))"""
+    cols = [mandel_vec(L(Ebasis(j)), S) for j in range(S)]
+    return [[cols[j][i] for j in range(S)] for i in range(S)]
+
+
+def log1p_half(x):
+    return fns("log1p", [x - Q2(1)]) * HALF
+
+
+def ref_builder(N, setting, pattern):
+    S = {1: 3, 2: 4, 3: 6}[N]
+
+    def f(rng):
+        cs = Case(rng, N, pattern)
+        l = list(cs.l)
+        if N == 2:
+            l[2] = cs.Fv[2] * cs.Fv[2]
+        e = [log1p_half(x) for x in l]
+        d = [Q2(1) / (Q2(2) * x) for x in l]
+        Th = theta_conf(l, e, d)
+        if N == 2:
+            for i in range(2):
+                Th.a[i][2] = Th.a[2][i] = Q2(0)
+        exp = {}
+        for i in range(3):
+            exp["e%d" % i] = e[i]
+            exp["vpo%d" % i] = l[i]
+        if setting == "L":
+            P = st2_of_map(lambda X: DK2(cs.M, cs.M, Th, X), S)
+            for i in range(S):
+                for j in range(S):
+                    exp["p%d_%d" % (i, j)] = P[i][j]
+            if pattern == "":
+                el = mandel_vec(cs.M * M3.diag(*e) * cs.M.T(), S)
+                for i in range(S):
+                    exp["el%d" % i] = el[i]
+                    exp["ea%d" % i] = el[i] if i < 3 else el[i] * SQ2
+                for i, v in enumerate(mandel_vec(cs.F.T() * cs.F, S)):
+                    exp["C%d" % i] = v
+        else:
+            Nn = cs.F * cs.M
+            for a in range(S):
+                row = mandel_vec(DK2(Nn, cs.M, Th, Ebasis(a)), S)
+                for b in range(S):
+                    exp["p%d_%d" % (a, b)] = row[b]
+        return cs.env, exp
+    return f
+
+
+def det3(A):
+    return A.det()
+
+
+def ref_stress(N, kind):
+    S = {1: 3, 2: 4, 3: 6}[N]
+
+    def f(rng):
+        cs = Case(rng, N)
+        cs.handler_members(rng)
+        p = cs.p
+        exp = {}
+        J = cs.F.det()
+        if kind in ("L_toPK2", "L_toCauchy", "E_toCauchy"):
+            T = cs.sym_inputs(rng, "T")
+            Tv = mandel_vec(T, S)
+            r = [Q2(2) * sum((Tv[i] * p[i][j] for i in range(S)), Q2(0)) for j in range(S)]
+            if kind == "L_toPK2":
+                for j in range(S):
+                    exp["S%d" % j] = r[j]
+            elif kind == "E_toCauchy":
+                for j in range(S):
+                    exp["s%d" % j] = r[j] / J
+            else:
+                Sm = from_mandel(r)
+                sg = mandel_vec(cs.F * Sm * cs.F.T() * (Q2(1) / J), S)
+                for j in range(S):
+                    exp["s%d" % j] = sg[j]
+        else:
+            ip = cs.mat_inputs(rng, "ip")
+            X = cs.sym_inputs(rng, "S" if kind == "L_fromPK2" else "s")
+            Xv = mandel_vec(X, S)
+            r = [sum((Xv[i] * ip[i][j] for i in range(S)), Q2(0)) * HALF for j in range(S)]
+            if kind == "E_fromCauchy":
+                r = [v * J for v in r]
+            for j in range(S):
+                exp["T%d" % j] = r[j]
+        return cs.env, exp
+    return f
+
+
+def ref_tangent(N, kind, pattern):
+    """kind: L_material | E_spatial | E_truesdell"""
+    S = {1: 3, 2: 4, 3: 6}[N]
+
+    def f(rng):
+        cs = Case(rng, N, pattern)
+        cs.handler_members(rng, pattern)
+        T = cs.sym_inputs(rng, "T")
+        Ks = cs.mat_inputs(rng, "K")
+        d, sd = cs.spectral()
+        p = cs.p
+        Nn = cs.M if kind == "L_material" else cs.F * cs.M
+        t = eig(cs.M, T)
+        xs = [eig(Nn, Ebasis(a)) for a in range(S)]
+        J = cs.F.det()
+        exp = {}
+        l, e = cs.l, cs.e
+        if N == 2:
+            # plane: the out-of-plane eigenvalue never interacts with the in-plane ones
+            pass
+        for a in range(S):
+            for b in range(S):
+                first = Q2(0)
+                for k in range(S):
+                    for ll in range(S):
+                        first = first + p[k][a] * Ks[k][ll] * p[ll][b]
+                v = Q2(4) * first + Q2(4) * D2_conf(l, e, d, sd, t, xs[a], xs[b])
+                if kind == "E_truesdell":
+                    v = v / J
+                exp["Kr%d_%d" % (a, b)] = v
+        return cs.env, exp
+    return f
+
+
+def ref_1d(setting, kind):
+    def f(rng):
+        Fv = [rq(rng, True) for _ in range(3)]
+        env = {"F%d" % i: Fv[i] for i in range(3)}
+        exp = {}
+        J = Fv[0] * Fv[1] * Fv[2]
+        if kind == "hencky":
+            for i in range(3):
+                exp["el%d" % i] = fns("log", [Fv[i]])
+                exp["ea%d" % i] = fns("log", [Fv[i]])
+            return env, exp
+        T = [rq(rng) for _ in range(3)]
+        for i in range(3):
+            env["T%d" % i] = T[i]
+        if kind == "stresses":
+            for i in range(3):
+                exp["S%d" % i] = T[i] / (Fv[i] * Fv[i])
+                exp["Sa%d" % i] = T[i] / (Fv[i] * Fv[i])
+                exp["Tb%d" % i] = T[i] * (Fv[i] * Fv[i])
+                exp["s%d" % i] = T[i] / J
+                exp["Tc%d" % i] = T[i] * J
+            return env, exp
+        Ks = [[rq(rng) for _ in range(3)] for _ in range(3)]
+        for i in range(3):
+            for j in range(3):
+                env["K%d_%d" % (i, j)] = Ks[i][j]
+                v = Ks[i][j] - (Q2(2) * T[i] if i == j else Q2(0))
+                exp["Km%d_%d" % (i, j)] = v / (Fv[i] * Fv[i] * Fv[j] * Fv[j])
+                exp["Ks%d_%d" % (i, j)] = v
+                exp["Kt%d_%d" % (i, j)] = v / J
+        return env, exp
+    return f
+
+
+def c24_refs():
+    R = {}
+    for st in ("L", "E"):
+        for kind in ("hencky", "stresses", "tangent"):
+            R["N1_%s_%s" % (st, kind)] = ref_1d(st, kind)
+    for N in (2, 3):
+        pats = ["", "_eq01"] + (["_eq02", "_eq12", "_eqall"] if N == 3 else [])
+        for pt in pats:
+            R["N%d_L_builder%s" % (N, pt)] = ref_builder(N, "L", pt)
+            R["N%d_E_builder%s" % (N, pt)] = ref_builder(N, "E", pt)
+            R["N%d_L_material%s" % (N, pt)] = ref_tangent(N, "L_material", pt)
+        R["N%d_E_spatial" % N] = ref_tangent(N, "E_spatial", "")
+        R["N%d_E_truesdell" % N] = ref_tangent(N, "E_truesdell", "")
+        for kind in ("L_toPK2", "L_fromPK2", "L_toCauchy", "E_toCauchy", "E_fromCauchy"):
+            R["N%d_%s" % (N, kind)] = ref_stress(N, kind)
+    return R
+
+
+def search(ck, units, refs, rng, tracer_bin=None, trials=3, only=None):
+    """exact differential evaluation of the traced units against the references (name-keyed expected
+    outputs); a disagreement is replayed on the real double precision code through VERIF_SHADOW."""
+    import re
+    found = []
+    stats = {"units_evaluated": 0, "points": 0, "outputs_compared": 0, "skipped_division_by_zero": 0,
+             "units_without_reference": [u.name for u in units if u.name not in refs]}
+    for u in units:
+        if u.name not in refs or (only and u.name not in only):
+            continue
+        stats["units_evaluated"] += 1
+        for _ in range(trials):
+            try:
+                env, expected = refs[u.name](rng)
+                val = emit.evaluate(u, env, fns)
+            except ZeroDivisionError:
+                stats["skipped_division_by_zero"] += 1
+                continue
+            stats["points"] += 1
+            bad = None
+            for oname, node in u.outs:
+                exp = expected.get(oname)
+                if exp is None:
+                    continue
+                stats["outputs_compared"] += 1
+                if not (val[node] == exp):
+                    bad = (oname, val[node], exp)
+                    break
+            if bad:
+                rep = {"unit": u.name, "output": bad[0],
+                       "inputs_exact": {k: repr(v) for k, v in env.items()},
+                       "code_value_exact": repr(bad[1]), "spec_value_exact": repr(bad[2]),
+                       "code_value": float(bad[1]), "spec_value": float(bad[2])}
+                if tracer_bin:
+                    sh = "".join("%s %s %.17g\n" % (u.name, k, float(v)) for k, v in env.items())
+                    shp = ck.write("shadow_%s.txt" % u.name, sh)
+                    try:
+                        p = ck.run([tracer_bin], env={"VERIF_SHADOW": shp}, timeout=600)
+                        m = re.search(r"unit %s\n(.*?)end %s\n" % (re.escape(u.name), re.escape(u.name)), p.stdout, re.S)
+                        if m:
+                            sh_nodes = {}
+                            outs = {}
+                            for line in m.group(1).splitlines():
+                                f = line.split()
+                                if f[0] == "n":
+                                    sh_nodes[int(f[1])] = float(line.split(";")[1])
+                                elif f[0] == "out":
+                                    outs[f[1]] = int(f[2])
+                            rep["real_code_double_result"] = sh_nodes.get(outs.get(bad[0]))
+                            rep["note"] = ("real_code_double_result = the shipped template instantiated at these inputs, in double "
+                                           "precision (uninterpreted functions are the libm ones there, so only compare when the output "
+                                           "does not go through log/log1p)")
+                    except Exception as e:  # support only
+                        rep["replay_error"] = repr(e)
+                found.append(rep)
+                break
+    return found, stats
